@@ -354,6 +354,130 @@ theorem comparisons (a : Angle) (b : Operand) :
   simp [angle_lt, angle_le, angle_gt, angle_ge, angle_eq, angle_ne, plt, pabs_eq]
 
 
+/-! ### Growth round: boundary, every shape in range, identities -/
+
+/-- Behaviour at the documented boundary: every whole number of turns (360, -360, 720, ...) is stored
+    as 0 — the bound of the canonical range is exclusive. -/
+theorem reduce_whole_turns (k : ℤ) : reduce_deg (360 * (k : ℚ)) = 0 := by
+  by_cases hk : k = 0
+  · subst hk; rw [reduce_deg_of_lt (by norm_num)]; norm_num
+  · have habs : |360 * (k : ℚ)| = ((360 * |k| : ℤ) : ℚ) := by
+      rw [abs_mul, abs_of_pos (by norm_num : (0 : ℚ) < 360)]; push_cast; rfl
+    have hge : 360 ≤ |360 * (k : ℚ)| := by
+      rw [habs]
+      have : 1 ≤ |k| := Int.one_le_abs hk
+      exact_mod_cast (by omega : (360 : ℤ) ≤ 360 * |k|)
+    rw [reduce_deg_of_ge hge]
+    unfold turnRem
+    rw [habs, Int.floor_intCast, Int.fract_intCast]
+    have : (360 * |k|) % 360 = 0 := Int.mul_emod_right 360 |k|
+    rw [this]; simp
+
+example : reduce_deg 360 = 0 ∧ reduce_deg (-360) = 0 ∧ reduce_deg 1080 = 0 := by decide +kernel
+
+/-- Every constructor call that succeeds stores a value strictly inside (-360, 360), whatever the
+    argument shape (the copy form returns its source unchanged, so it is in range when the source is). -/
+theorem ctor_always_in_range (s : Shape) (a : Angle) (h : angle_new s = .ok a) :
+    (∀ c, s = .copy c → a = c) ∧ ((∀ c, s ≠ .copy c) → |a.deg| < 360) := by
+  unfold angle_new at h
+  cases s with
+  | none => cases h; exact ⟨fun c hc => (by cases hc), fun _ => by norm_num⟩
+  | num x => cases h; exact ⟨fun c hc => (by cases hc), fun _ => (reduce_deg_spec x).1⟩
+  | copy c => cases h; exact ⟨fun c' hc => (by cases hc; rfl), fun hne => absurd rfl (hne _)⟩
+  | seq xs =>
+    refine ⟨fun c hc => (by cases hc), fun _ => ?_⟩
+    rcases xs with _ | ⟨x, _ | ⟨y, _ | ⟨z, _ | ⟨w, rest⟩⟩⟩⟩
+    · cases h
+    · cases h; exact (reduce_deg_spec x).1
+    · cases h; exact (dms2deg_spec _ _ _).1
+    · cases h; exact (dms2deg_spec _ _ _).1
+    · cases h; exact (dms2deg_spec _ _ _).1
+  | args xs =>
+    refine ⟨fun c hc => (by cases hc), fun _ => ?_⟩
+    rcases xs with _ | ⟨x, _ | ⟨y, _ | ⟨z, _ | ⟨w, rest⟩⟩⟩⟩
+    · cases h
+    · cases h
+    · cases h; exact (dms2deg_spec _ _ _).1
+    · cases h; exact (dms2deg_spec _ _ _).1
+    · cases h; exact (dms2deg_spec _ _ _).1
+
+example : ∃ a, angle_new (.num 360) = .ok a ∧ a.deg = 0 := ⟨_, rfl, by decide +kernel⟩
+/-- the sign piece of the 4-piece form reaches minutes and seconds when the degrees are 0 -/
+example : ∃ a, angle_new (.args [0, 5, 30, -1]) = .ok a ∧ a.deg = -(5 / 60 + 30 / 3600) := ⟨_, rfl, by decide +kernel⟩
+/-- rounding up to a whole turn wraps to 0 and the result carries the default tolerance -/
+example : (angle_round ⟨359.7, 0.5⟩ 0).deg = 0 ∧ (angle_round ⟨359.7, 0.5⟩ 0).tol = TOL := by decide +kernel
+
+/-- Identities between the library's own operations on valid Angles: `+` and `*` commute, `-(-a) = a`,
+    `a - a = 0`, and the positive form is idempotent. -/
+theorem identities (a b : Angle) (ha : |a.deg| < 360) :
+    angle_add a (.ang b) = angle_add b (.ang a) ∧ angle_mul a (.ang b) = angle_mul b (.ang a) ∧
+    (angle_neg (angle_neg a)).deg = a.deg ∧ (angle_sub a (.ang a)).deg = 0 ∧
+    to_positive (to_positive a) = to_positive a := by
+  have hneg : (angle_neg a).deg = -a.deg := reduce_deg_of_lt (by rw [abs_neg]; exact ha)
+  refine ⟨?_, ?_, ?_, ?_, ?_⟩
+  · unfold angle_add Operand.val; rw [add_comm]
+  · unfold angle_mul Operand.val; rw [mul_comm]
+  · show reduce_deg (-(angle_neg a).deg) = a.deg
+    rw [hneg, neg_neg]; exact reduce_deg_of_lt ha
+  · show reduce_deg (a.deg + (angle_neg a).deg) = 0
+    rw [hneg, add_neg_cancel]; exact reduce_deg_of_lt (by norm_num)
+  · obtain ⟨h0, h1, _, _, _⟩ := to_positive_range a ha
+    have hr : |(to_positive a).deg| < 360 := by rw [abs_lt]; constructor <;> linarith
+    exact (to_positive_range (to_positive a) hr).2.2.2.2 h0
+
+/-- `Angle.reduce_dms` on ANY three rationals returns canonical pieces: integer degrees in [0, 360),
+    integer minutes in [0, 60), seconds in [0, 60), sign -1 exactly when a piece is negative, and the
+    pieces keep the magnitude `|d| + |m|/60 + |s|/3600` up to whole turns (the absolute values are taken
+    before the fractional parts are pushed down). -/
+theorem reduce_dms_canonical (d m s : ℚ) :
+    ∃ (D M : ℤ) (S : ℚ), reduce_dms d m s = (D, M, S, if d < 0 ∨ m < 0 ∨ s < 0 then (-1 : ℚ) else 1) ∧
+      0 ≤ D ∧ D < 360 ∧ 0 ≤ M ∧ M < 60 ∧ 0 ≤ S ∧ S < 60 ∧
+      ∃ k : ℤ, |d| + |m| / 60 + |s| / 3600 = (D : ℚ) + (M : ℚ) / 60 + S / 3600 + 360 * k :=
+  reduce_dms_fields d m s
+
+example : reduce_dms 0 0.5 (-10) = (0, 0, 40, -1) ∧ reduce_dms 10.5 30.5 (-30.5) = (11, 1, 0.5, -1) ∧
+    reduce_dms 725 59 3600 = (6, 59, 0, 1) := by decide +kernel
+
+/-- The order comparisons are a trichotomy on the stored values, and `==` holds whenever the values
+    coincide and the tolerance is positive. -/
+theorem comparison_trichotomy (a : Angle) (b : Operand) :
+    (angle_lt a b = true ∨ angle_gt a b = true ∨ a.deg = b.val) ∧
+    ¬ (angle_lt a b = true ∧ angle_gt a b = true) ∧
+    (a.deg = b.val → 0 < a.tol → angle_eq a b = true) := by
+  obtain ⟨h1, _, h3, _, h5, _⟩ := comparisons a b
+  refine ⟨?_, ?_, fun he ht => ?_⟩
+  · rcases lt_trichotomy a.deg b.val with h | h | h
+    · exact Or.inl (h1.mpr h)
+    · exact Or.inr (Or.inr h)
+    · exact Or.inr (Or.inl (h3.mpr h))
+  · rintro ⟨ha, hb⟩; exact lt_asymm (h1.mp ha) (h3.mp hb)
+  · rw [h5, he, sub_self, abs_zero]; exact ht
+
+/-- On valid Angles subtraction is exactly `Angle(a - b)` (the detour `a + (-b)` through `Angle(-b)`
+    loses nothing), plain, in-place and reflected. -/
+theorem sub_exact (a b : Angle) (hb : |b.deg| < 360) :
+    angle_sub a (.ang b) = mk (a.deg - b.deg) ∧ angle_isub a (.ang b) = mk (a.deg - b.deg) := by
+  have hneg : (angle_neg b).deg = -b.deg := reduce_deg_of_lt (by rw [abs_neg]; exact hb)
+  have : angle_sub a (.ang b) = mk (a.deg - b.deg) := by
+    show mk (a.deg + (angle_neg b).deg) = _
+    rw [hneg, sub_eq_add_neg]
+  exact ⟨this, this⟩
+
+/-- The remainder `%` keeps: for a positive modulus `b` the magnitude `|a| mod b` lies in [0, b), so the
+    exact result `sgn(a) * (|a| mod b)` has the sign of `a` and magnitude below `b`. -/
+theorem mod_remainder_range (x y : ℚ) (hy : 0 < y) :
+    0 ≤ |x| - y * ⌊|x| / y⌋ ∧ |x| - y * ⌊|x| / y⌋ < y ∧
+    |(if 0 ≤ x then (1 : ℚ) else -1) * (|x| - y * ⌊|x| / y⌋)| < y := by
+  have h := pmod_pos (x := |x|) hy
+  unfold pmod at h
+  rw [rfloor] at h
+  refine ⟨h.1, h.2.1, ?_⟩
+  split_ifs
+  · rw [one_mul, abs_of_nonneg h.1]; exact h.2.1
+  · rw [neg_one_mul, abs_neg, abs_of_nonneg h.1]; exact h.2.1
+
+example : ∃ r : Angle, angle_mod ⟨-350, TOL⟩ (.int 60) = .ok r ∧ r.deg = -50 := ⟨_, rfl, by decide +kernel⟩
+
 /-! ### Radians: input and view (over ℝ, `Pymeeus.GenR`) -/
 
 /-- The reduction theorem holds verbatim over the reals (the radians input needs it). -/
@@ -412,5 +536,28 @@ theorem pow_real (a : GenR.Angle) (y : ℝ) :
 
 /-- "the radian view is the value times pi/180". -/
 theorem rad_view (a : GenR.Angle) : GenR.angle_rad a = a.deg * (Real.pi / 180) := rfl
+
+/-- `rad()` after `to_positive()` is the radian value of the NEW value: for a negative Angle it is
+    `(a + 360) * pi / 180` (no stale cached view in the functional model). -/
+theorem rad_after_to_positive (a : GenR.Angle) (h1 : -360 < a.deg) (h2 : a.deg < 0) :
+    GenR.angle_rad (GenR.to_positive a) = (a.deg + 360) * (Real.pi / 180) := by
+  have hp : (GenR.to_positive a).deg = a.deg + 360 := by
+    unfold GenR.to_positive
+    have hp : PR.plt a.deg 0 = true := by simp [PR.plt, h2]
+    have hd : ¬ (PR.ple 360.0 (360.0 - PR.pabs a.deg) = true) := by
+      simp only [PR.ple, PR.pabs, decide_eq_true_eq, abs_of_neg h2]; norm_num; linarith
+    rw [if_pos hp]; simp only [hd]
+    simp only [PR.pabs, abs_of_neg h2]; norm_num; ring
+  show (GenR.to_positive a).deg * (Real.pi / 180) = _
+  rw [hp]
+
+/-- `**` with a negative base and a non-integer exponent has no real value: CPython returns a complex,
+    `Angle(complex)` raises TypeError. -/
+theorem pow_complex_rejected (a : GenR.Angle) (y : ℝ) (ha : a.deg < 0) (hy : y ≠ (⌊y⌋ : ℤ)) :
+    GenR.angle_pow a (.flt y) = .error .typeError := by
+  have hy0 : y ≠ 0 := by
+    intro h0; apply hy; rw [h0]; simp
+  unfold GenR.angle_pow PR.ppow
+  simp only [hy0, ha.ne, ha, hy, if_false, if_true]
 
 end Pymeeus.C03
